@@ -155,6 +155,30 @@ fn edge_props(prop: &str, tier: &str, seed: u64, threads: usize, out: &str) {
         let n = 1 + rng.below(if quick { 6 } else { 8 });
         gen_edge::random_history(&mut rng, fl, &format!("r{i}"), n, nc, with_via)
     });
+    // hubs of high degree
+    exec::new_section();
+    let nhub = if quick { 60 } else { 600 };
+    let fls2 = flavours.clone();
+    spread(&mut ctxs, nhub, |i| {
+        let mut rng = Rng::new(seed.wrapping_mul(1_000_037).wrapping_add(i as u64));
+        let base = fls2[i % fls2.len()];
+        match i % 5 {
+            3 => {
+                let fl = format!("w{base}");
+                let mut l = gen_edge::hub_history(&mut rng, base, &format!("hub{i}"));
+                l[0] = format!("case {fl} hub{i}");
+                l
+            }
+            4 => {
+                let fl = format!("z{base}");
+                let mut l = gen_edge::zst(gen_edge::hub_history(&mut rng, base, &format!("hub{i}")));
+                l[0] = format!("case {fl} hub{i}");
+                l
+            }
+            _ => gen_edge::hub_history(&mut rng, base, &format!("hub{i}")),
+        }
+    });
+    extra.insert("hubs".into(), format!("{nhub} histories on a hub of degree 20-90"));
     // the same histories with a key type whose Hash is coarser than its Eq (two hash values for all keys), non-Copy and
     // heap-owning: whatever the library does with a key's hash or clone beyond what usize shows
     exec::new_section();
